@@ -111,7 +111,7 @@ def model_exe():
 if __name__ == "__main__":
     h = build_harness()
     print(h)
-    ok, out = lake_build(["Econf", "econf_model"])
+    ok, out = lake_build(["Econf", "econf_model", "Econf.Props.All"])
     print("lake:", ok)
     if not ok:
         print(out[-3000:])
